@@ -215,6 +215,9 @@ def _handmade(content_len: int, blocks: list[tuple[Any, ...]], fcs_mode: str, ca
     return F.zstd_handmade(blocks, fcs), lie
 
 
+_BOMB_CACHE: dict[tuple[str, int, Any], bytes] = {}
+
+
 def build(case: dict[str, Any]) -> dict[str, Any]:
     """Turn the pure-data case into the wire body + the facts the oracle needs (no code under test involved,
     except that genuine request bodies come from the library's client)."""
@@ -231,7 +234,10 @@ def build(case: dict[str, Any]) -> dict[str, Any]:
         if producer.startswith("zstd_raw"):
             wire0, lie = _handmade(n, F.rle_blocks(0, n), case["fcs"], cap)
         else:
-            wire0 = F.encode(producer, bytes(n), case["level"])
+            bkey = (producer, n, case["level"])
+            if bkey not in _BOMB_CACHE:  # a handful of distinct bombs; compressing 32 MiB each time is wasted work
+                _BOMB_CACHE[bkey] = F.encode(producer, bytes(n), case["level"])
+            wire0 = _BOMB_CACHE[bkey]
         decoded_len = n
         decoded: bytes | None = None
     else:
@@ -266,12 +272,17 @@ def build(case: dict[str, Any]) -> dict[str, Any]:
 # --------------------------------------------------------------------------- sending
 
 
+def _effective(status: int, rpc_error: str | None) -> int:
+    """``200`` + ``X-VGI-RPC-Error: true`` is the documented wire form of a server-side 500 (WIRE_PROTOCOL §13)."""
+    return 500 if status == 200 and (rpc_error or "").strip().lower() == "true" else status
+
+
 def _send_inproc(cap: int | None, no_zstd: bool, body: bytes, token: str | None) -> tuple[int, bytes, str]:
     headers = {"Content-Type": ARROW_CT, "X-Request-ID": "c17"}
     if token is not None:
         headers["Content-Encoding"] = token
     r = _tc(cap, no_zstd).simulate_post("/store", body=body, headers=headers)
-    return r.status_code, r.content, (r.headers.get("content-type") or "")
+    return _effective(r.status_code, r.headers.get("x-vgi-rpc-error")), r.content, (r.headers.get("content-type") or "")
 
 
 def _send_chunked(cap: int | None, no_zstd: bool, body: bytes, token: str | None, piece: int) -> tuple[int, bytes, str]:
@@ -291,7 +302,7 @@ def _send_chunked(cap: int | None, no_zstd: bool, body: bytes, token: str | None
         conn.request("POST", "/store", body=iter(pieces), headers=headers, encode_chunked=True)
         resp = conn.getresponse()
         data = resp.read()
-        out = (resp.status, data, resp.getheader("content-type") or "")
+        out = (_effective(resp.status, resp.getheader("x-vgi-rpc-error")), data, resp.getheader("content-type") or "")
         conn.close()
         return out
     finally:
@@ -355,7 +366,9 @@ def run_case(case: dict[str, Any]) -> Outcome:
         cls = "decoded_over_cap"
     elif verdict == "bad":
         allowed.add(400)
-        if declared_over or (cap is not None and len(ref_out) > cap):
+        # a decoder may run into the cap before it reaches the damage: whenever the frame header claims more than
+        # the cap, the reference got more than the cap out before failing, or the undamaged frame held more than the cap
+        if declared_over or (cap is not None and (len(ref_out) > cap or (named == b["codec"] and b["decoded_len"] > cap))):
             allowed.add(413)
         cls = "undecodable"
     else:
@@ -408,7 +421,7 @@ def run_case(case: dict[str, Any]) -> Outcome:
             tracemalloc.stop()
     calls = list(_IMPL.calls)
     out.note = {"status": status, "wire": len(wire), "decoded": b["decoded_len"], "cap": cap, "token": token, "class": cls, "calls": len(calls)}
-    sig = f"{cls}/{b['codec'] if named == b['codec'] or named is None else 'labelled_' + str(named)}/{b['mclass'] if not b['lie'] else 'fcs_' + case['fcs']}"
+    sig = f"{cls}/{b['codec'] if named == b['codec'] or named is None else 'labelled_' + str(named)}/{(case['mutation'] if b['mclass'] != 'none' else 'intact') if not b['lie'] else 'fcs_' + case['fcs']}"
     facts = (
         f"cap={cap} wire={len(wire)} B decoded={b['decoded_len']} B producer={case['producer']} damage={case['mutation']}→{b['mclass']} "
         f"Content-Encoding={token!r} zstd_disabled={no_zstd} transfer={case.get('transfer', 'length')}"
@@ -438,7 +451,7 @@ def run_case(case: dict[str, Any]) -> Outcome:
             out.label(f"reached_rpc_layer={status}")
     else:
         out.fail(
-            f"wrong_status/{sig}/want={'|'.join(want)}/got={status}",
+            f"wrong_status/{sig}/got={status}",
             f"expected {want}, got status {status} (store() calls: {calls}); {facts}; reference decoder: {verdict}"
             + (f", {len(ref_out)} bytes out, {unused} unused" if verdict in ("ok", "bad") else ""),
         )
@@ -501,7 +514,7 @@ body_cases = st.builds(
 )
 bomb_cases = st.builds(
     _mk,
-    st.sampled_from([1024, 65536, 200000, 200000, None]),
+    st.sampled_from([1024, 65536, 200000, 200000]),
     st.sampled_from([False, False, True]),
     st.builds(lambda m: {"kind": "bomb", "mib": m}, st.sampled_from([8, 8, 32])),
     st.just("decoded"),
@@ -546,7 +559,7 @@ def main(chk: Check) -> None:
     _selftest()
     for c in _REGRESSIONS:
         chk.case("bodies", c, run_case)
-    chk.explore("bodies", body_cases, run_case, quick=1500, thorough=30000)
-    chk.explore("bombs", bomb_cases, run_case, quick=150, thorough=2500)
+    chk.explore("bodies", body_cases, run_case, quick=1800, thorough=30000)
+    chk.explore("bombs", bomb_cases, run_case, quick=100, thorough=2500)
     if not chk.quick or chk.replay is not None:
         chk.explore("chunked", chunked_cases, run_case, quick=1, thorough=160)
